@@ -297,6 +297,11 @@ def path_conds(ctx: Ctx, f: Func, node: ast.AST, _depth: int = 0) -> List[Tuple[
                         break
                     if isinstance(s, ast.If) and not s.orelse and terminates(s.body):
                         out.extend(split_cond(s.test, False))
+                    elif isinstance(s, ast.If) and not s.orelse and s.body and isinstance(s.body[-1], ast.If) and not s.body[-1].orelse and terminates(s.body[-1].body):
+                        # `if A: ...; if B: return`: whoever gets past it has not (A and B)
+                        conj = ast.BoolOp(op=ast.And(), values=[s.test, s.body[-1].test])
+                        ast.copy_location(conj, s)
+                        out.append((conj, False))
                     elif isinstance(s, ast.Assert):
                         pass
         if isinstance(cur, (ast.FunctionDef, ast.AsyncFunctionDef, ast.Lambda)):
